@@ -136,13 +136,7 @@ Fixpoint faithful (v : jv) : bool :=
   end.
 
 Definition is_plain (s : stored) : bool := match s with Plain _ => true | Pickled _ => false end.
-Definition jv_list_eqb (a b : list (string * jv)) : bool :=
-  (fix go (a b : list (string * jv)) : bool :=
-     match a, b with
-     | [], [] => true
-     | (k, x) :: a', (k', y) :: b' => String.eqb k k' && same_vt x y && go a' b'
-     | _, _ => false
-     end) a b.
+
 
 (* ---- extension: json_to_data(custom_objects=...): an attribute named in custom_objects is not decoded, the given
    object is used instead ---- *)
